@@ -57,6 +57,32 @@ Proof. vm_compute. split; reflexivity. Qed.
 Example chain_raises : run_chain d0 [OBin Add (RArr [3]%nat [])] = Raise 1%nat.
 Proof. vm_compute. reflexivity. Qed.
 
+(* an ndarray that would broadcast the value up: a (1,2) dataset with bins and a
+   (3,2) array.  + keeps the (1,2) error: __init__ refuses; * broadcasts the
+   error too but the bins no longer fit: refused as well; without bins * gives
+   a well-formed (3,2) dataset.  Nothing ill-formed is ever returned. *)
+Definition row : ds :=
+  mk_ds [1; 2]%nat (fl [4607182418800017408; 13835058055282163712]%Z)
+        (fl [4591870180066957722; 4596373779694328218]%Z) None
+        [("e", fl [4602678819172646912]%Z); ("t", fl [0; 4607182418800017408; 4611686018427387904]%Z)]
+        "row" "spam".
+Definition row_nobins : ds :=
+  mk_ds [1; 2]%nat (value row) (error row) None [] "row" "spam".
+Definition arr32 : rhs :=
+  RArr [3; 2]%nat (fl [4607182418800017408; 4611686018427387904; 4613937818241073152;
+                       13835058055282163712; 4602678819172646912; 0]%Z).
+
+Example broadcast_up_add_raises : binop Add row_nobins arr32 = Raise 1%nat.
+Proof. vm_compute. reflexivity. Qed.
+Example broadcast_up_mul_with_bins_raises : binop Mul row arr32 = Raise 1%nat.
+Proof. vm_compute. reflexivity. Qed.
+Example broadcast_up_mul_without_bins :
+  match binop Mul row_nobins arr32 with
+  | Ok x => shape x = [3; 2]%nat /\ List.length (value x) = 6%nat /\ List.length (error x) = 6%nat
+  | Raise _ => False
+  end.
+Proof. vm_compute. repeat split; reflexivity. Qed.
+
 (* the repaired constant factor on a concrete cell: 0.1 * |-2| = 0.2 > 0 *)
 Example const_factor_example :
   to_bits (cell_err_dc Mul tenth minus_two) = 4596373779694328218%Z.
